@@ -11,12 +11,74 @@ Schema scanner model (`SchemaScan`), `Length()`: fuel-free machinery.
 namespace SchemaScan
 namespace Len
 
+/-! ### errors of `Next()`, fuel-free -/
+
+/-- the model's own guard against running out of fuel (never a result of the real scanner) -/
+def fuelErr : Err := .crash "next: fuel exhausted"
+
+theorem nextBody_monoE (data : Array Cls) (k k' : Sc → M (Option (Sc × Ev)))
+    (hk : ∀ s e, k s = .error e → e ≠ fuelErr → k' s = .error e) (s : Sc) (e : Err)
+    (h : nextBody data k s = .error e) (he : e ≠ fuelErr) : nextBody data k' s = .error e := by
+  unfold nextBody at h ⊢
+  cases h1 : shiftFound data s with
+  | error e1 => rw [h1] at h; exact h
+  | ok o =>
+    rw [h1] at h
+    cases o with
+    | some p => cases h
+    | none =>
+      simp only [] at h ⊢
+      by_cases hlt : s.index < data.size
+      · simp only [hlt, if_true] at h ⊢
+        cases h2 : dispatch 8 s.step { s with index := s.index + 1 } data[s.index]! data[s.index + 1]? data[s.index + 1 + 1]? with
+        | error e2 => rw [h2] at h; exact h
+        | ok s1 =>
+          rw [h2] at h
+          simp only [] at h ⊢
+          cases h3 : shiftFound data s1 with
+          | error e3 => rw [h3] at h; exact h
+          | ok o2 =>
+            rw [h3] at h
+            cases o2 with
+            | some p => cases h
+            | none => exact hk _ _ h he
+      · simp only [hlt, if_false] at h ⊢
+        exact h
+
+theorem next_monoE1 (data : Array Cls) : ∀ (nf : Nat) (s : Sc) (e : Err),
+    next data nf s = .error e → e ≠ fuelErr → next data (nf + 1) s = .error e
+  | 0, s, e, h, he => by rw [next_zero] at h; cases h; exact absurd rfl he
+  | nf + 1, s, e, h, he => by
+    rw [next_succ] at h ⊢
+    exact nextBody_monoE data _ _ (next_monoE1 data nf) s e h he
+
+theorem next_monoE (data : Array Cls) (nf m : Nat) (s : Sc) (e : Err)
+    (h : next data nf s = .error e) (he : e ≠ fuelErr) (hm : nf ≤ m) : next data m s = .error e := by
+  induction m with
+  | zero => have : nf = 0 := by omega
+            subst this; exact h
+  | succ m ih =>
+    by_cases hle : nf ≤ m
+    · exact next_monoE1 data m s e (ih hle) he
+    · have : nf = m + 1 := by omega
+      subst this; exact h
+
+/-- `Next()` from `s` fails with the scanner error `e` -/
+def NextErr (data : Array Cls) (s : Sc) (e : Err) : Prop :=
+  e ≠ fuelErr ∧ ∃ nf, nf ≤ data.size - s.index + 2 ∧ next data nf s = .error e
+
+theorem NextErr.next {data : Array Cls} {s : Sc} {e : Err} (h : NextErr data s e) :
+    SchemaScan.next data (3 * data.size + 16) s = .error e := by
+  obtain ⟨he, nf, hb, hn⟩ := h
+  exact next_monoE data nf _ s e hn he (by omega)
+
 /-! ### paths -/
 
 inductive Path (data : Array Cls) : Sc → List Ev → Sc → Prop
   | refl (s : Sc) : Path data s [] s
   | read {s s1 s' : Sc} {evs : List Ev} :
-      (∀ r, NextOk data s1 r → NextOk data s r) → Path data s1 evs s' → Path data s evs s'
+      (∀ r, NextOk data s1 r → NextOk data s r) → (∀ e, NextErr data s1 e → NextErr data s e) →
+      Path data s1 evs s' → Path data s evs s'
   | ev {s s1 s' : Sc} {e : Ev} {evs : List Ev} :
       NextOk data s (some (s1, e)) → Path data s1 evs s' → Path data s (e :: evs) s'
 
@@ -24,7 +86,7 @@ theorem Path.trans {data : Array Cls} {s s1 s2 : Sc} {a b : List Ev}
     (h1 : Path data s a s1) (h2 : Path data s1 b s2) : Path data s (a ++ b) s2 := by
   induction h1 with
   | refl _ => exact h2
-  | read hl _ ih => exact Path.read hl (ih h2)
+  | read hl hle _ ih => exact Path.read hl hle (ih h2)
   | ev hn _ ih => exact Path.ev hn (ih h2)
 
 theorem Path.cast {data : Array Cls} {s s1 s1' : Sc} {evs evs' : List Ev} (h : Path data s evs s1) (he : evs = evs')
@@ -41,7 +103,7 @@ theorem Path.emits {data : Array Cls} {s s1 : Sc} {a b : List Ev}
     (h1 : Path data s a s1) (h2 : Emits data s1 b) : Emits data s (a ++ b) := by
   induction h1 with
   | refl _ => exact h2
-  | read hl _ ih => exact emits_lift hl (ih h2)
+  | read hl _ _ ih => exact emits_lift hl (ih h2)
   | ev hn _ ih => exact Emits.cons hn (ih h2)
 
 theorem nextOk_shift {data : Array Cls} {s s' : Sc} {t : LexT} {rest : List LexT} {e : Ev}
@@ -96,11 +158,46 @@ theorem nextOk_read {data : Array Cls} {s s1 : Sc} {c : Cls}
     | succ n => omega
   exact ⟨nf + 1, by rw [hi] at hb; omega, key nf r h1 hn⟩
 
+theorem nextErr_read {data : Array Cls} {s s1 : Sc} {c : Cls}
+    (hf : s.finds = []) (hc : data[s.index]? = some c)
+    (hd : dispatch 8 s.step { s with index := s.index + 1 } c data[s.index + 1]? data[s.index + 1 + 1]? = .ok s1)
+    (hi : s1.index = s.index + 1) : ∀ e, NextErr data s1 e → NextErr data s e := by
+  obtain ⟨hlt, hget⟩ := Array.getElem?_eq_some_iff.mp hc
+  have hbang : data[s.index]! = c := by rw [getElem!_pos data s.index hlt]; exact hget
+  have key : ∀ nf e, 1 ≤ nf → next data nf s1 = .error e → next data (nf + 1) s = .error e := by
+    intro nf e h1 hn
+    rw [next_succ]
+    unfold nextBody
+    have hs : shiftFound data s = .ok none := by unfold shiftFound; rw [hf]; rfl
+    rw [hs]
+    simp only [hlt, if_true, hbang, hd]
+    obtain ⟨m, rfl⟩ : ∃ m, nf = m + 1 := ⟨nf - 1, by omega⟩
+    rw [next_succ] at hn
+    unfold nextBody at hn
+    cases h3 : shiftFound data s1 with
+    | error e3 => rw [h3] at hn; exact hn
+    | ok o =>
+      rw [h3] at hn
+      cases o with
+      | some p => cases hn
+      | none =>
+        simp only []
+        rw [next_succ]
+        unfold nextBody
+        rw [h3]
+        exact hn
+  intro e ⟨he, nf, hb, hn⟩
+  have h1 : 1 ≤ nf := by
+    cases nf with
+    | zero => rw [next_zero] at hn; cases hn; exact absurd rfl he
+    | succ n => omega
+  exact ⟨he, nf + 1, by rw [hi] at hb; omega, key nf e h1 hn⟩
+
 theorem Path.readByte {data : Array Cls} {s s1 : Sc} {c : Cls}
     (hf : s.finds = []) (hc : data[s.index]? = some c)
     (hd : dispatch 8 s.step { s with index := s.index + 1 } c data[s.index + 1]? data[s.index + 1 + 1]? = .ok s1)
     (hi : s1.index = s.index + 1) : Path data s [] s1 :=
-  Path.read (nextOk_read hf hc hd hi) (Path.refl _)
+  Path.read (nextOk_read hf hc hd hi) (nextErr_read hf hc hd hi) (Path.refl _)
 
 theorem Path.drain {data : Array Cls} : ∀ (fs : List LexT) (s s' : Sc) (evs : List Ev),
     s.finds = fs → drainL data fs s = .ok (s', evs) → Path data s evs s'
@@ -207,7 +304,7 @@ theorem Path.lenRun {data : Array Cls} {s s' : Sc} {evs : List Ev} (hp : Path da
       LenRun data s len n (k + evs.length) := by
   induction hp with
   | refl _ => intro _ len n k h; exact h
-  | read hl _ ih => intro hnt len n k h; exact (ih hnt len n k h).lift hl
+  | read hl _ _ ih => intro hnt len n k h; exact (ih hnt len n k h).lift hl
   | @ev s s1 s' e evs hn _ ih =>
     intro hnt len n k h
     simp only [noTop, List.all_cons, Bool.and_eq_true, bne_iff_ne, ne_eq] at hnt
